@@ -1,3 +1,214 @@
 import CircuitModel.Conc.GoWrap
 namespace CM.Conc.GoWrap
+
+/-- where the function's outcome currently is -/
+def Phase (s : State) : Prop :=
+  -- P0: not delivered yet
+  (s.workerDone = false ∧ s.resCh = none ∧ s.panCh = none ∧ s.lost = [] ∧ s.waiterDone = false ∧
+    (s.caller = none ∨ s.caller = some .ctxErr)) ∨
+  -- P1: in its channel
+  (s.workerDone = true ∧ s.lost = [] ∧ s.waiterDone = false ∧ (s.caller = none ∨ s.caller = some .ctxErr) ∧
+    ((∃ e, s.sc.outcome = .ret e ∧ s.resCh = some e ∧ s.panCh = none) ∨
+     (∃ v, s.sc.outcome = .panic v ∧ s.panCh = some v ∧ s.resCh = none))) ∨
+  -- P2: taken by the caller
+  (s.workerDone = true ∧ s.resCh = none ∧ s.panCh = none ∧ s.lost = [] ∧ s.waiterDone = false ∧
+    s.caller = some (.fn s.sc.outcome)) ∨
+  -- P3: taken by the waiter
+  (s.workerDone = true ∧ s.resCh = none ∧ s.panCh = none ∧ s.lost = [s.sc.outcome] ∧ s.waiterDone = true ∧
+    s.waiterSpawned = true)
+
+/-- the inductive invariant of the reachable states of scenario `sc` -/
+structure Inv (sc : Scenario) (s : State) : Prop where
+  sc_eq : s.sc = sc
+  wd_fin : s.workerDone = true → s.fnFinished = true
+  ctxErr : s.caller = some .ctxErr → s.ctxDone = true ∧ s.waiterSpawned = s.sc.lostErrors
+  spawn : s.waiterSpawned = true → s.sc.lostErrors = true ∧ s.caller = some .ctxErr
+  phase : Phase s
+
+theorem inv_init (sc : Scenario) : Inv sc (init sc) := by
+  refine ⟨rfl, ?_, ?_, ?_, ?_⟩ <;> simp [init, Phase]
+
+theorem inv_step {sc : Scenario} {s s' : State} {a : Actor} (hi : Inv sc s) (h : step s a = some s') :
+    Inv sc s' := by
+  obtain ⟨h1, h2, h3, h4, h5⟩ := hi
+  cases a
+  case envCtx =>
+    simp only [step] at h
+    split at h
+    · cases h
+      exact ⟨h1, h2, fun hc => ⟨rfl, (h3 hc).2⟩, h4, h5⟩
+    · cases h
+  case envFn =>
+    simp only [step] at h
+    split at h
+    · cases h
+      exact ⟨h1, fun _ => rfl, h3, h4, h5⟩
+    · cases h
+  case worker =>
+    simp only [step] at h
+    split at h
+    next hc =>
+      have hwd : s.workerDone = false := by simpa using hc.2
+      have hp0 : s.resCh = none ∧ s.panCh = none ∧ s.lost = [] ∧ s.waiterDone = false ∧
+          (s.caller = none ∨ s.caller = some .ctxErr) := by
+        rcases h5 with h | h | h | h
+        · exact h.2
+        all_goals (rw [hwd] at h; exact absurd h.1 (by simp))
+      split at h
+      next e ho =>
+        cases h
+        refine ⟨h1, fun _ => hc.1, h3, h4, ?_⟩
+        exact Or.inr (Or.inl ⟨rfl, hp0.2.2.1, hp0.2.2.2.1, hp0.2.2.2.2, Or.inl ⟨e, ho, rfl, hp0.2.1⟩⟩)
+      next v ho =>
+        cases h
+        refine ⟨h1, fun _ => hc.1, h3, h4, ?_⟩
+        exact Or.inr (Or.inl ⟨rfl, hp0.2.2.1, hp0.2.2.2.1, hp0.2.2.2.2, Or.inr ⟨v, ho, rfl, hp0.1⟩⟩)
+    · cases h
+  case callerCtx =>
+    simp only [step] at h
+    split at h
+    next hc =>
+      cases h
+      have hcn : s.caller = none := by simpa using hc.1
+      refine ⟨h1, h2, fun _ => ⟨hc.2, rfl⟩, fun hw => ⟨hw, rfl⟩, ?_⟩
+      rcases h5 with h | h | h | h
+      · exact Or.inl ⟨h.1, h.2.1, h.2.2.1, h.2.2.2.1, h.2.2.2.2.1, Or.inr rfl⟩
+      · exact Or.inr (Or.inl ⟨h.1, h.2.1, h.2.2.1, Or.inr rfl, h.2.2.2.2⟩)
+      · rw [hcn] at h; exact absurd h.2.2.2.2.2 (by simp)
+      · have := (h4 h.2.2.2.2.2).2; rw [hcn] at this; exact absurd this (by simp)
+    · cases h
+  case callerRes =>
+    simp only [step] at h
+    split at h
+    next e hcn hr =>
+      cases h
+      refine ⟨h1, h2, fun hx => by simp at hx, ?_, ?_⟩
+      · intro hw
+        have := (h4 hw).2; rw [hcn] at this; exact absurd this (by simp)
+      · rcases h5 with h | h | h | h
+        · rw [hr] at h; exact absurd h.2.1 (by simp)
+        · rcases h.2.2.2.2 with ⟨e', ho, hr', hp⟩ | ⟨v, ho, hp, hr'⟩
+          · rw [hr] at hr'; cases hr'
+            exact Or.inr (Or.inr (Or.inl ⟨h.1, rfl, hp, h.2.1, h.2.2.1, by simp [ho]⟩))
+          · rw [hr] at hr'; cases hr'
+        · rw [hr] at h; exact absurd h.2.1 (by simp)
+        · rw [hr] at h; exact absurd h.2.1 (by simp)
+    · cases h
+  case callerPan =>
+    simp only [step] at h
+    split at h
+    next v hcn hp =>
+      cases h
+      refine ⟨h1, h2, fun hx => by simp at hx, ?_, ?_⟩
+      · intro hw
+        have := (h4 hw).2; rw [hcn] at this; exact absurd this (by simp)
+      · rcases h5 with h | h | h | h
+        · rw [hp] at h; exact absurd h.2.2.1 (by simp)
+        · rcases h.2.2.2.2 with ⟨e, ho, hr', hp'⟩ | ⟨v', ho, hp', hr'⟩
+          · rw [hp] at hp'; cases hp'
+          · rw [hp] at hp'; cases hp'
+            exact Or.inr (Or.inr (Or.inl ⟨h.1, hr', rfl, h.2.1, h.2.2.1, by simp [ho]⟩))
+        · rw [hp] at h; exact absurd h.2.2.1 (by simp)
+        · rw [hp] at h; exact absurd h.2.2.1 (by simp)
+    · cases h
+  case waiterRes =>
+    simp only [step] at h
+    split at h
+    next hc =>
+      split at h
+      next e hr =>
+        cases h
+        refine ⟨h1, h2, h3, h4, ?_⟩
+        rcases h5 with h | h | h | h
+        · rw [hr] at h; exact absurd h.2.1 (by simp)
+        · rcases h.2.2.2.2 with ⟨e', ho, hr', hp⟩ | ⟨v, ho, hp, hr'⟩
+          · rw [hr] at hr'; cases hr'
+            exact Or.inr (Or.inr (Or.inr ⟨h.1, rfl, hp, by simp [h.2.1, ho], rfl, hc.1⟩))
+          · rw [hr] at hr'; cases hr'
+        · rw [hr] at h; exact absurd h.2.1 (by simp)
+        · rw [hr] at h; exact absurd h.2.1 (by simp)
+      · cases h
+    · cases h
+  case waiterPan =>
+    simp only [step] at h
+    split at h
+    next hc =>
+      split at h
+      next v hp =>
+        cases h
+        refine ⟨h1, h2, h3, h4, ?_⟩
+        rcases h5 with h | h | h | h
+        · rw [hp] at h; exact absurd h.2.2.1 (by simp)
+        · rcases h.2.2.2.2 with ⟨e, ho, hr', hp'⟩ | ⟨v', ho, hp', hr'⟩
+          · rw [hp] at hp'; cases hp'
+          · rw [hp] at hp'; cases hp'
+            exact Or.inr (Or.inr (Or.inr ⟨h.1, hr', rfl, by simp [h.2.1, ho], rfl, hc.1⟩))
+        · rw [hp] at h; exact absurd h.2.2.1 (by simp)
+        · rw [hp] at h; exact absurd h.2.2.1 (by simp)
+      · cases h
+    · cases h
+
+theorem inv_run_of {sc : Scenario} (sched : List Actor) : ∀ {s : State}, Inv sc s → Inv sc (run s sched) := by
+  induction sched with
+  | nil => intro s hi; exact hi
+  | cons a rest ih =>
+    intro s hi
+    simp only [run]
+    split
+    next s' h => exact ih (inv_step hi h)
+    next => exact ih hi
+
+theorem inv_run (sc : Scenario) (sched : List Actor) : Inv sc (run (init sc) sched) :=
+  inv_run_of sched (inv_init sc)
+
+/-- the eight facts of quiescence -/
+theorem quiescent_iff (s : State) : quiescent s = true ↔ ∀ a, step s a = none := by
+  constructor
+  · intro h a
+    simp only [quiescent, actors, List.all_cons, List.all_nil, Bool.and_true, Bool.and_eq_true,
+      Option.isNone_iff_eq_none] at h
+    cases a
+    · exact h.1
+    · exact h.2.1
+    · exact h.2.2.1
+    · exact h.2.2.2.1
+    · exact h.2.2.2.2.1
+    · exact h.2.2.2.2.2.1
+    · exact h.2.2.2.2.2.2.1
+    · exact h.2.2.2.2.2.2.2
+  · intro h
+    simp [quiescent, actors, h]
+
+theorem worker_done_of_quiescent {s : State} (hq : ∀ a, step s a = none) (hf : s.fnFinished = true) :
+    s.workerDone = true := by
+  cases hwd : s.workerDone
+  · have := hq .worker
+    simp only [step, hf, hwd] at this
+    cases ho : s.sc.outcome <;> simp [ho] at this
+  · rfl
+
+/-- an outcome sitting in its channel is always taken: by the caller if it has not returned yet, else by the
+    waiter (which exists as soon as GoLostErrors is configured) -/
+theorem in_channel_not_quiescent {sc : Scenario} {s : State} (hi : Inv sc s) (hq : ∀ a, step s a = none)
+    (hcfg : s.sc.lostErrors = true ∨ s.waiterSpawned = true)
+    (h : s.workerDone = true ∧ s.lost = [] ∧ s.waiterDone = false ∧ (s.caller = none ∨ s.caller = some .ctxErr) ∧
+      ((∃ e, s.sc.outcome = .ret e ∧ s.resCh = some e ∧ s.panCh = none) ∨
+       (∃ v, s.sc.outcome = .panic v ∧ s.panCh = some v ∧ s.resCh = none))) : False := by
+  obtain ⟨_, _, hwd, hc, hch⟩ := h
+  rcases hc with hc | hc
+  · rcases hch with ⟨e, _, hr, _⟩ | ⟨v, _, hp, _⟩
+    · have := hq .callerRes
+      simp [step, hc, hr] at this
+    · have := hq .callerPan
+      simp [step, hc, hp] at this
+  · have hws : s.waiterSpawned = true := by
+      rcases hcfg with hl | hw
+      · rw [(hi.ctxErr hc).2]; exact hl
+      · exact hw
+    rcases hch with ⟨e, _, hr, _⟩ | ⟨v, _, hp, _⟩
+    · have := hq .waiterRes
+      simp [step, hws, hwd, hr] at this
+    · have := hq .waiterPan
+      simp [step, hws, hwd, hp] at this
+
 end CM.Conc.GoWrap
